@@ -74,6 +74,11 @@ def ref(name, vals, ts, cfg):
             return ("val", int(x != 0))
         if name == "check_positive":
             return ("val", int(x >= 0))
+    if name == "check_positive_n":
+        x, n = int(vals[0]), int(vals[1])
+        if n < 0 or x.bit_length() > n:
+            return SKIP
+        return ("val", int(x >= 0))
     if name in TERNARY:
         c, x, y = vals
         if c not in (0, 1):
@@ -149,4 +154,6 @@ def in_core(name, vals, ts, cfg):
         return ts[0] == "B" and vals[0] in (0, 1)
     if name == "lc_if_else":
         return ts[0] == "I" and vals[0] in (0, 1)
+    if name == "check_positive_n":
+        return ts[0] == "I" and 0 <= int(vals[1]) and int(vals[0]).bit_length() <= int(vals[1])
     return False
